@@ -13,7 +13,21 @@ def run_kani(names, timeout=900, jobs=6):
     os.makedirs(os.path.dirname(out), exist_ok=True)
     t = time.time()
     cmd = [sys.executable, os.path.join(VERIF, 'kani', 'run_kani.py'), '--out', out, '--jobs', str(jobs),
-           '--timeout', str(timeout)] + list(names)
+           '--timeout', str(timeout)]
+    repo = os.environ.get('VERIF_REPO', '/repo')
+    if repo != '/repo':
+        # frozen / scratch copy of the repository: harness crate copy with the path dependency redirected, own cache
+        import hashlib
+        import shutil
+        key = hashlib.md5(repo.encode()).hexdigest()[:8]
+        alt = os.path.join(VERIF, '.cache', 'kani-alt-' + key)
+        if os.path.exists(alt):
+            shutil.rmtree(alt)
+        shutil.copytree(os.path.join(VERIF, 'kani'), alt, ignore=shutil.ignore_patterns('target', '*.lock'))
+        toml = open(os.path.join(alt, 'Cargo.toml')).read().replace('path = "/repo"', 'path = "%s"' % repo)
+        open(os.path.join(alt, 'Cargo.toml'), 'w').write(toml)
+        cmd += ['--crate-dir', alt, '--lock-from', os.path.join(repo, 'Cargo.lock'), '--cache-dir', os.path.join(VERIF, '.cache', 'kani-cache-' + key)]
+    cmd += list(names)
     r = subprocess.run(cmd, stdout=subprocess.PIPE, stderr=subprocess.STDOUT)
     if r.returncode != 0 or not os.path.exists(out):
         return {'error': r.stdout.decode('utf-8', 'replace')[-2000:], 'harnesses': {}, 'wall_s': time.time() - t}
